@@ -4,7 +4,12 @@ From Curies.model Require Export Conv.
 
 Inductive val := VInt (z : Z) | VStr (s : str) | VList (l : list val) | VNone | VSome (v : val).
 
+(* Wildcard: the harness replaces the answers that a check does not look at (queries its property does not speak about)
+   by this token; it compares equal to everything.  Code point 0x110000 is not a character of any Python string, and
+   the model never produces it. *)
+Definition is_wild (v : val) : bool := match v with VStr [n] => N.eqb n 1114112 | _ => false end.
 Fixpoint val_eqb (a b : val) {struct a} : bool :=
+  if is_wild a || is_wild b then true else
   match a, b with
   | VInt x, VInt y => Z.eqb x y
   | VStr x, VStr y => str_eqb x y
